@@ -353,6 +353,31 @@ let c05 (w : string list) : string =
      | [] -> failwith "c05: no outs")
   | _ -> failwith "c05: bad command"
 
+let p1 (w : string list) : string =
+  match w with
+  | "create" :: mode :: par :: nvol :: nf :: rest ->
+    let nf = int_of_string nf in
+    let files = List.filteri (fun i _ -> i < nf) rest and rest = List.filteri (fun i _ -> i >= nf) rest in
+    let (fs, sched, _) = parse_fs rest in
+    let (r, st) = par1_create md5_fn (bytes_of_string (unhex par))
+        (List.map (fun f -> bytes_of_string (unhex f)) files) (z_of_int (int_of_string nvol)) (io_init fs sched) in
+    fs_result mode (res_str r) "-" [] fs st
+  | "verify" :: mode :: ix :: all :: rest ->
+    let (fs, sched, _) = parse_fs rest in
+    let (r, st) = par1_verify md5_fn (bytes_of_string (unhex ix)) (all = "1") (io_init fs sched) in
+    let cs = match r with
+      | Ok (c, ok) ->
+        let un = int_of_nat c.fc_unusable and pu = int_of_nat c.fc_pusable in
+        Printf.sprintf "%d,%d,%d,%d,%d,%d,%d" (int_of_nat c.fc_usable) un pu (int_of_nat c.fc_punusable)
+          (if ok then 1 else 0) (if un > 0 then 1 else 0) (if pu >= un then 1 else 0)
+      | _ -> "-" in
+    fs_result mode (res_str r) cs [] fs st
+  | "repair" :: mode :: ix :: dbl :: rest ->
+    let (fs, sched, _) = parse_fs rest in
+    let ((r, rp), st) = par1_repair md5_fn (bytes_of_string (unhex ix)) (dbl = "1") (io_init fs sched) in
+    fs_result mode (res_str r) "-" rp fs st
+  | _ -> failwith "p1: bad command"
+
 let dispatch (line : string) : string =
   match String.split_on_char ' ' (String.trim line) with
   | "c08" :: w -> c08 w
@@ -362,6 +387,7 @@ let dispatch (line : string) : string =
   | "c07" :: w -> c07 w
   | "c12" :: w -> c12 w
   | "p2" :: w -> p2 w
+  | "p1" :: w -> p1 w
   | "c05" :: w -> c05 w
   | _ -> failwith ("bad line: " ^ line)
 
